@@ -747,6 +747,77 @@ def part_axes(ctx, shard):
                 ctx.violation(base + "|mode=wrong-value", case, np.asarray(want).tolist(), got.tolist())
 
 
+def part_axes_default(ctx, shard):
+    """the same reductions spelled WITHOUT an axis (ufunc.reduce then works along the first axis, the function / method
+    spellings over everything), with where= masks, and the reduceat / accumulate methods: whenever a value comes back, every
+    element of it is the product of the elements that were multiplied, unit included"""
+    world.reset_world()
+    for unit, shape in shard:
+        n = int(np.prod(shape))
+        data = (np.arange(n, dtype=float) % 5 + 1.0).reshape(shape) * 0.5
+        u = Unit(unit)
+        sc, dim = float(u.base_value), dim_of(u.dimensions)
+        m_even = np.ones(shape, dtype=bool)
+        m_even[0] = False  # every output loses the same number of factors
+        m_odd = np.ones(shape, dtype=bool)
+        m_odd.reshape(-1)[0] = False  # one output loses a factor, the others none
+        calls = [
+            ("multiply.reduce()", lambda x: np.multiply.reduce(x), lambda d: np.multiply.reduce(d), None),
+            ("multiply.reduce(keepdims)", lambda x: np.multiply.reduce(x, keepdims=True), lambda d: np.multiply.reduce(d, keepdims=True), None),
+            ("divide.reduce()", lambda x: np.divide.reduce(x), lambda d: np.divide.reduce(d), None),
+            ("add.reduce()", lambda x: np.add.reduce(x), lambda d: np.add.reduce(d), None),
+            ("maximum.reduce()", lambda x: np.maximum.reduce(x), lambda d: np.maximum.reduce(d), None),
+            ("np.prod()", lambda x: np.prod(x), lambda d: np.prod(d), None),
+            ("prod-method()", lambda x: x.prod(), lambda d: d.prod(), None),
+            ("multiply.reduce(positional-axis)", lambda x: np.multiply.reduce(x, len(shape) - 1), lambda d: np.multiply.reduce(d, len(shape) - 1), None),
+            ("multiply.reduce(where-even)", lambda x: np.multiply.reduce(x, axis=0, where=m_even), lambda d: np.multiply.reduce(d, axis=0, where=m_even), None),
+            ("multiply.reduce(where-odd)", lambda x: np.multiply.reduce(x, axis=0, where=m_odd), lambda d: np.multiply.reduce(d, axis=0, where=m_odd), "ragged" if len(shape) > 1 else None),
+            ("np.prod(where-even)", lambda x: np.prod(x, axis=0, where=m_even), lambda d: np.prod(d, axis=0, where=m_even), None),
+            ("np.prod(where-odd)", lambda x: np.prod(x, axis=0, where=m_odd), lambda d: np.prod(d, axis=0, where=m_odd), "ragged" if len(shape) > 1 else None),
+            ("add.reduce(where-odd)", lambda x: np.add.reduce(x, axis=0, where=m_odd), lambda d: np.add.reduce(d, axis=0, where=m_odd), None),
+            ("multiply.reduceat", lambda x: np.multiply.reduceat(x.reshape(-1), [0, 2]), lambda d: np.multiply.reduceat(d.reshape(-1), [0, 2]), "ragged" if n != 4 else None),
+            ("add.reduceat", lambda x: np.add.reduceat(x.reshape(-1), [0, 2]), lambda d: np.add.reduceat(d.reshape(-1), [0, 2]), None),
+            ("multiply.accumulate", lambda x: np.multiply.accumulate(x.reshape(-1)), lambda d: np.multiply.accumulate(d.reshape(-1)), "ragged"),
+            ("add.accumulate", lambda x: np.add.accumulate(x.reshape(-1)), lambda d: np.add.accumulate(d.reshape(-1)), None),
+            ("np.cumprod", lambda x: np.cumprod(x.reshape(-1)), lambda d: np.cumprod(d.reshape(-1)), "ragged"),
+            ("np.cumsum", lambda x: np.cumsum(x.reshape(-1)), lambda d: np.cumsum(d.reshape(-1)), None),
+        ]
+        for cname, f, ref, ragged in calls:
+            ctx.count("evaluations")
+            ctx.count("transitions")
+            x = unyt_array(data.copy(), unit)
+            r = run_real(lambda: f(x))
+            case = {"part": "axes-default", "unit": unit, "shape": list(shape), "call": cname}
+            ctx.outcome(("axes-default", cname, r[0]))
+            base = f"C04|axes-default|call={cname}|ndim={len(shape)}"
+            if r[0] != "ok":
+                ctx.count("refused")
+                continue
+            ctx.decided(("axes-default", cname, unit, shape))
+            res = r[1]
+            ru = getattr(res, "units", None)
+            if ragged and dim != dim_of(1):
+                # the outputs are products of different numbers of factors: no single unit describes them
+                ctx.violation(base + "|mode=one-unit-for-products-of-different-length", case, "refusal", str(ru))
+                continue
+            want = ref(data * sc)
+            got = np.asarray(getattr(res, "d", res), dtype=float) * (float(ru.base_value) if ru is not None else 1.0)
+            # dimension: found by scaling - the same call on data in SI must give these numbers
+            if got.shape != np.shape(want) or np.any(np.abs(got - want) > 64 * EPS * n * np.abs(want)):
+                ctx.violation(base + "|mode=wrong-value-or-unit", case, np.asarray(want).tolist(), {"numbers": got.tolist(), "unit": str(ru)})
+                continue
+            # and the unit's dimension is the one the reference reduction has under a rescaling of the input by 2
+            want2 = ref(data * sc * 2.0)
+            with np.errstate(all="ignore"):
+                k = np.log2(np.abs(np.asarray(want2, dtype=float) / np.asarray(want, dtype=float)))
+            ks = {int(round(float(v))) for v in np.asarray(k).reshape(-1) if np.isfinite(v)}
+            if len(ks) == 1:
+                kk = ks.pop()
+                gdim = dim_of(ru.dimensions) if ru is not None else dim_of(1)
+                if gdim != dim**kk:
+                    ctx.violation(base + "|mode=wrong-dimension", case, str(dim**kk), str(ru))
+
+
 # ---- integer operands whose units cancel into a large number ----------------------------------------------------------------
 def part_int_products(ctx, shard):
     """products / quotients of INTEGER data in units that cancel into a large (or tiny) pure number: the value is the SI
@@ -991,6 +1062,7 @@ def run(ctx):
     harness.pmap(ctx, part_extra, [extra_pairs[i::32] for i in range(32)])
     harness.pmap(ctx, part_namesake, [["stale-after-modify"], ["two-registries"]])
     harness.pmap(ctx, part_axes, [[(u, sh)] for u in RED_UNITS for sh in ((2, 3), (2, 3, 4), (3,), (1, 3))])
+    harness.pmap(ctx, part_axes_default, [[(u, sh)] for u in RED_UNITS for sh in ((2, 3), (2, 3, 4), (3,), (1, 3), (4,), (2, 2))])
     harness.pmap(ctx, part_int_products, [[p] for p in (("pc", "1/cm"), ("Mpc", "1/mm"), ("km", "1/mm"), ("kg", "1/mg"), ("yr", "1/ns"), ("mm", "1/Mpc"), ("cm", "km"), ("Msun", "1/g"))])
     harness.pmap(ctx, part_initial, [[p] for p in (("km", "km"), ("km", "m"), ("m", "km"), ("hr", "s"), ("g", "kg"), ("K", "R"))])
     harness.pmap(ctx, part_array_power, [[u] for u in ("km", "hr/s", "dimensionless", "percent", "m/s")])
@@ -1021,9 +1093,14 @@ def replay(case):
         return list(ctx.violations.items())
     if case.get("part") == "axes":
         part_axes(ctx, [(case["unit"], tuple(case["shape"]))])
+    elif case["part"] == "axes-default":
+        part_axes_default(ctx, [(case["unit"], tuple(case["shape"]))])
         return list(ctx.violations.items())
     if case.get("part") == "int-products":
         part_int_products(ctx, [tuple(case["units"])])
+        return list(ctx.violations.items())
+    if case.get("part") == "axes-default":
+        part_axes_default(ctx, [(case["unit"], tuple(case["shape"]))])
         return list(ctx.violations.items())
     if case.get("part") == "initial":
         part_initial(ctx, [(case["unit"], case["initial_unit"])])
